@@ -66,4 +66,35 @@ example : derOid [1, 3] = some [43] := by decide
 example : (1 : Nat) ≤ 2 ∧ (3 : Nat) ≤ 39 ∧ ∀ a ∈ [6, 1, 4294967295], a < 2 ^ 32 := by decide
 example : parseArcText [43, 48, 54] = some 6 := by decide
 
+/-! ## Refused before anything is sent -/
+
+/-- **C08.refused_sends_nothing**: a `get` whose OID text the parser refuses hands no datagram to the
+socket, whatever the session (v1 / v2c / v3, any keys): the parser's error is the outcome of the call -/
+theorem refused_sends_nothing (D : Digests) (C : Ciphers) (s : Session) (t : Bytes) (rawReq rawMsg : Int) (buf : Buf)
+    (e : SnmpError) (h : oidFromStr t = .err e) :
+    (s.send D C (.get t) rawReq rawMsg buf).2 = .err e := by
+  cases s with
+  | community cs => simp [Session.send, Call.toPdu, h]
+  | v3 vs => simp [Session.send, Call.toPdu, h]
+
+/-- one refused name anywhere in a `get_many` list (after names that parse) refuses the whole request -/
+theorem oidsFromStrs_refuses : ∀ (pre : List Bytes) (t : Bytes) (post : List Bytes) (e : SnmpError),
+    (∀ x ∈ pre, ∃ o, oidFromStr x = .ok o) → oidFromStr t = .err e →
+    oidsFromStrs (pre ++ t :: post) = .err e
+  | [], t, post, e, _, h => by simp [oidsFromStrs, h]
+  | x :: pre, t, post, e, hp, h => by
+    obtain ⟨o, ho⟩ := hp x (by simp)
+    have := oidsFromStrs_refuses pre t post e (fun y hy => hp y (by simp [hy])) h
+    simp [oidsFromStrs, ho, this]
+
+/-- **C08.refused_many_sends_nothing** -/
+theorem refused_many_sends_nothing (D : Digests) (C : Ciphers) (s : Session) (pre : List Bytes) (t : Bytes)
+    (post : List Bytes) (rawReq rawMsg : Int) (buf : Buf) (e : SnmpError)
+    (hp : ∀ x ∈ pre, ∃ o, oidFromStr x = .ok o) (h : oidFromStr t = .err e) :
+    (s.send D C (.getMany (pre ++ t :: post)) rawReq rawMsg buf).2 = .err e := by
+  have hm := oidsFromStrs_refuses pre t post e hp h
+  cases s with
+  | community cs => simp [Session.send, Call.toPdu, hm]
+  | v3 vs => simp [Session.send, Call.toPdu, hm]
+
 end GufoSnmp.C08
